@@ -1,6 +1,6 @@
 (* The Compact protocol of Model/Thrift.v satisfies the protocol laws. *)
 From Coq Require Import ZArith List Bool Lia ZifyBool.
-From Tally Require Import Base.Obs Model.Varint Model.Thrift Proof.VarintP Proof.ThriftP.
+From Tally Require Import Base.ObsCore Model.Varint Model.Thrift Proof.VarintP Proof.ThriftP.
 Import ListNotations.
 Open Scope Z_scope.
 Ltac Zify.zify_post_hook ::= Z.div_mod_to_equations.
